@@ -62,6 +62,14 @@ def check(prog: Program, run: Run) -> None:
              "parameters of both services position by position", floor=3)
     run.rule("C18.R6", "the overview counts come from the layer being printed; no tool memoises "
              "results across calls", floor=5)
+    run.rule("C18.R7", "services / parameters of the other layer are matched by comparing short "
+             "names, never by a keyed NamedItemList lookup with a raw short name", floor=1)
+    common.g6_lookup_by_short_name(prog, run, "C18.R7", SCOPE)
+    run.rule("C18.R8", "the constant request prefix by which the compare tool recognises a renamed "
+             "or re-added service covers every constant parameter and stops at the first "
+             "non-constant one (shared with C06.R4)", floor=2)
+    from . import c06
+    common.run_as(run, "C06.R4", "C18.R8", lambda r: c06._const_prefix(prog, r))
     common.g2_repeated_tests(prog, run, "C18.R1", SCOPE)
     common.g1_literal_attrs(prog, run, "C18.R2", SCOPE)
     _compare_parameters(prog, run)
